@@ -324,3 +324,176 @@ theorem simplestAbs_spec (l u : Q) (hl : 0 ≤ l.num) (hu : 0 ≤ u.num) (hld : 
         exact hmin p s hs hp1 hp2
 
 end Dashu.Model.Ratio
+
+namespace Dashu.Model.Ratio
+open Dashu.Model
+
+theorem reduce_of_reduced (q : Q) (h : Reduced q) : reduce q = .ok q := by
+  obtain ⟨r, h1, h2, h3⟩ := reduce_spec q h.den_pos
+  rw [h1, Reduced.ext h2 h h3]
+
+theorem val_abs_of_nonpos (q : Q) (hd : 0 < q.den) (h : q.num ≤ 0) : (abs q).val = -q.val := by
+  have hb : (0 : ℚ) < q.den := by exact_mod_cast hd
+  have e : ((q.num.natAbs : ℤ) : ℚ) = -(q.num : ℚ) := by
+    have : (q.num.natAbs : ℤ) = -q.num := by omega
+    rw [this]; push_cast; ring
+  simp only [abs, Q.val_def, e, neg_div]
+
+theorem abs_of_nonneg_num (q : Q) (h : 0 ≤ q.num) : abs q = q := by
+  obtain ⟨n, d⟩ := q
+  simp only [abs, Q.mk.injEq, and_true]
+  simp only at h
+  omega
+
+theorem val_nonneg_iff (q : Q) (hd : 0 < q.den) : 0 ≤ q.val ↔ 0 ≤ q.num := by
+  have hb : (0 : ℚ) < q.den := by exact_mod_cast hd
+  rw [Q.val_def, div_nonneg_iff]
+  constructor
+  · rintro (⟨h, _⟩ | ⟨_, h⟩)
+    · exact_mod_cast h
+    · linarith
+  · intro h; left; exact ⟨by exact_mod_cast h, hb.le⟩
+
+theorem val_neg_iff (q : Q) (hd : 0 < q.den) : q.val < 0 ↔ q.num < 0 := by
+  have := val_nonneg_iff q hd
+  constructor
+  · intro h; by_contra hc; exact absurd (this.2 (by omega)) (not_le.mpr h)
+  · intro h; by_contra hc; have := this.1 (not_lt.mp hc); omega
+
+theorem val_pos_iff (q : Q) (hd : 0 < q.den) : 0 < q.val ↔ 0 < q.num := by
+  have hb : (0 : ℚ) < q.den := by exact_mod_cast hd
+  rw [Q.val_def, div_pos_iff]
+  constructor
+  · rintro (⟨h, _⟩ | ⟨_, h⟩)
+    · exact_mod_cast h
+    · linarith
+  · intro h; left; exact ⟨by exact_mod_cast h, hb⟩
+
+/-- **`RBig::simplest_in`**: for equal end points that number; otherwise a reduced fraction
+    strictly between the end points (whatever their order and signs) such that every fraction
+    `p/s` strictly between them has `s ≥` its denominator AND `|p| ≥` its numerator magnitude. -/
+theorem simplestIn_spec (l u : Q) (hld : 0 < l.den) (hud : 0 < u.den) :
+    (l.val = u.val → ∃ r, simplestIn l u = .ok (some r) ∧ Reduced r ∧ r.val = l.val) ∧
+    (l.val ≠ u.val → ∃ r, simplestIn l u = .ok (some r) ∧ Reduced r ∧
+      min l.val u.val < r.val ∧ r.val < max l.val u.val ∧
+      ∀ (p : ℤ) (s : ℕ), 0 < s → min l.val u.val < (p : ℚ) / s → (p : ℚ) / s < max l.val u.val →
+        r.den ≤ s ∧ r.num.natAbs ≤ p.natAbs) := by
+  by_cases hstr : (l.num < 0 ∧ 0 < u.num) ∨ (u.num < 0 ∧ 0 < l.num)
+  · -- sign-straddling: 0
+    have hres : simplestIn l u = .ok (some Q.zero) := by
+      simp only [simplestIn, reprSimplestIn, if_pos hstr, bind_ok']
+      rfl
+    have hl0 : l.val < 0 ∧ 0 < u.val ∨ u.val < 0 ∧ 0 < l.val := by
+      rcases hstr with ⟨a, b⟩ | ⟨a, b⟩
+      · exact Or.inl ⟨(val_neg_iff l hld).2 a, (val_pos_iff u hud).2 b⟩
+      · exact Or.inr ⟨(val_neg_iff u hud).2 a, (val_pos_iff l hld).2 b⟩
+    have hz : Q.zero.val = 0 := by simp [Q.zero, Q.val_def]
+    constructor
+    · intro h; rcases hl0 with ⟨a, b⟩ | ⟨a, b⟩ <;> linarith
+    · intro _
+      refine ⟨Q.zero, hres, reduced_zero, ?_, ?_, ?_⟩
+      · rw [hz]; rcases hl0 with ⟨a, b⟩ | ⟨a, b⟩
+        · exact lt_of_le_of_lt (min_le_left _ _) a
+        · exact lt_of_le_of_lt (min_le_right _ _) a
+      · rw [hz]; rcases hl0 with ⟨a, b⟩ | ⟨a, b⟩
+        · exact lt_of_lt_of_le b (le_max_right _ _)
+        · exact lt_of_lt_of_le b (le_max_left _ _)
+      · intro p s hs _ _
+        exact ⟨by simp only [Q.zero]; omega, by simp [Q.zero]⟩
+  · by_cases hneg : l.num < 0 ∨ u.num < 0
+    · -- both ≤ 0
+      have hl : l.num ≤ 0 := by
+        rcases hneg with h | h
+        · omega
+        · by_contra hc; exact hstr (Or.inr ⟨h, by omega⟩)
+      have hu : u.num ≤ 0 := by
+        rcases hneg with h | h
+        · by_contra hc; exact hstr (Or.inl ⟨h, by omega⟩)
+        · omega
+      have hla := val_abs_of_nonpos l hld hl
+      have hua := val_abs_of_nonpos u hud hu
+      have hspec := simplestAbs_spec (abs l) (abs u) (by simp [abs]) (by simp [abs]) hld hud true
+      have hrepr : reprSimplestIn l u = simplestAbs (abs l) (abs u) true := by
+        simp only [reprSimplestIn, if_neg hstr, hneg, decide_true]
+      constructor
+      · intro h
+        have := hspec.1 (by rw [hla, hua, h])
+        have hback : mulSign (abs l) true = l := by
+          obtain ⟨n, d⟩ := l
+          simp only [mulSign, abs, if_true, Q.mk.injEq, and_true]
+          simp only at hl
+          omega
+        obtain ⟨r, h1, h2, h3⟩ := reduce_spec l hld
+        refine ⟨r, ?_, h2, h3⟩
+        simp only [simplestIn, hrepr, this, bind_ok', hback, h1]
+        rfl
+      · intro hne
+        obtain ⟨A, B, hres, hA, hB, hcop, h1, h2, hmin⟩ :=
+          hspec.2 (by rw [hla, hua]; intro h; exact hne (neg_injective h))
+        simp only [if_true] at hres
+        have hBn : ((B.natAbs : ℕ) : ℤ) = B := Int.natAbs_of_nonneg hB.le
+        have hBq : ((B.natAbs : ℕ) : ℚ) = (B : ℚ) := by
+          rw [← Int.cast_natCast, hBn]
+        have hred : Reduced ⟨-A, B.natAbs⟩ :=
+          ⟨Int.natAbs_pos.mpr hB.ne', by simpa using hcop⟩
+        have hval : (⟨-A, B.natAbs⟩ : Q).val = -((A : ℚ) / B) := by
+          simp [Q.val_def, hBq, neg_div]
+        have hmm : min l.val u.val = -max (-l.val) (-u.val) := by
+          rcases le_total l.val u.val with hh | hh
+          · rw [min_eq_left hh, max_eq_left (neg_le_neg hh), neg_neg]
+          · rw [min_eq_right hh, max_eq_right (neg_le_neg hh), neg_neg]
+        have hMM : max l.val u.val = -min (-l.val) (-u.val) := by
+          rcases le_total l.val u.val with hh | hh
+          · rw [max_eq_right hh, min_eq_right (neg_le_neg hh), neg_neg]
+          · rw [max_eq_left hh, min_eq_left (neg_le_neg hh), neg_neg]
+        rw [hla, hua] at h1 h2 hmin
+        refine ⟨⟨-A, B.natAbs⟩, ?_, hred, ?_, ?_, ?_⟩
+        · simp only [simplestIn, hrepr, hres, bind_ok', reduce_of_reduced _ hred]
+          rfl
+        · rw [hval, hmm]; linarith
+        · rw [hval, hMM]; linarith
+        · intro p s hs hp1 hp2
+          rw [hmm] at hp1
+          rw [hMM] at hp2
+          have e : ((-p : ℤ) : ℚ) / s = -((p : ℚ) / s) := by push_cast; ring
+          have := hmin (-p) s hs (by rw [e]; linarith) (by rw [e]; linarith)
+          simp only
+          constructor
+          · omega
+          · rw [Int.natAbs_neg]; omega
+    · -- both ≥ 0
+      have hl : 0 ≤ l.num := by omega
+      have hu : 0 ≤ u.num := by omega
+      have hspec := simplestAbs_spec l u hl hu hld hud false
+      have hrepr : reprSimplestIn l u = simplestAbs l u false := by
+        simp only [reprSimplestIn, if_neg hstr, hneg, decide_false, abs_of_nonneg_num l hl,
+          abs_of_nonneg_num u hu]
+      constructor
+      · intro h
+        have := hspec.1 h
+        have hback : mulSign l false = l := by simp [mulSign]
+        obtain ⟨r, h1, h2, h3⟩ := reduce_spec l hld
+        refine ⟨r, ?_, h2, h3⟩
+        simp only [simplestIn, hrepr, this, bind_ok', hback, h1]
+        rfl
+      · intro hne
+        obtain ⟨A, B, hres, hA, hB, hcop, h1, h2, hmin⟩ := hspec.2 hne
+        simp only [Bool.false_eq_true, if_false] at hres
+        have hBn : ((B.natAbs : ℕ) : ℤ) = B := Int.natAbs_of_nonneg hB.le
+        have hBq : ((B.natAbs : ℕ) : ℚ) = (B : ℚ) := by
+          rw [← Int.cast_natCast, hBn]
+        have hred : Reduced ⟨A, B.natAbs⟩ :=
+          ⟨Int.natAbs_pos.mpr hB.ne', by simpa using hcop⟩
+        have hval : (⟨A, B.natAbs⟩ : Q).val = (A : ℚ) / B := by
+          simp [Q.val_def, hBq]
+        refine ⟨⟨A, B.natAbs⟩, ?_, hred, ?_, ?_, ?_⟩
+        · simp only [simplestIn, hrepr, hres, bind_ok', reduce_of_reduced _ hred]
+          rfl
+        · rw [hval]; exact h1
+        · rw [hval]; exact h2
+        · intro p s hs hp1 hp2
+          have := hmin p s hs hp1 hp2
+          simp only
+          constructor <;> omega
+
+end Dashu.Model.Ratio
